@@ -164,7 +164,10 @@ pub trait Parties {
 thread_local! {
     static JOBS: RefCell<Vec<Option<PartyFn>>> = const { RefCell::new(Vec::new()) };
     static DONE: RefCell<Vec<bool>> = const { RefCell::new(Vec::new()) };
-    static POOL: RefCell<Vec<Option<generator::Generator<'static, (), ()>>>> = const { RefCell::new(Vec::new()) };
+    // The pool is leaked on purpose: dropping a parked generator cancels it, and the generator
+    // crate does that by temporarily swapping the *global* panic hook – which races with panics
+    // being recorded on other worker threads (observed: violations reported with an empty site).
+    static POOL: &'static RefCell<Vec<Option<generator::Generator<'static, (), ()>>>> = Box::leak(Box::new(RefCell::new(Vec::new())));
 }
 
 #[cfg(feature = "coro")]
